@@ -35,6 +35,15 @@ type result struct {
 // runAll discharges obligations in two stages: a quick pass with one solver
 // (most obligations are trivial), then a race of all back ends on the rest.
 func runAll(obs []*Oblig, outDir string, timeoutS int, workers int, which []string, all bool) []result {
+	return runAllEsc(obs, outDir, timeoutS, workers, which, all, nil)
+}
+
+// runAllSel: like runAll, but only obligations selected by esc enter the second stage.
+func runAllSel(obs []*Oblig, outDir string, timeoutS int, workers int, esc func(*Oblig) bool) []result {
+	return runAllEsc(obs, outDir, timeoutS, workers, nil, false, esc)
+}
+
+func runAllEsc(obs []*Oblig, outDir string, timeoutS int, workers int, which []string, all bool, esc func(*Oblig) bool) []result {
 	res := make([]result, len(obs))
 	stage := func(idx []int, workers int, t int, which []string, all bool) {
 		var wg sync.WaitGroup
@@ -63,7 +72,9 @@ func runAll(obs []*Oblig, outDir string, timeoutS int, workers int, which []stri
 		var rest []int
 		for _, i := range idx {
 			if s := res[i].v.Status; s != "unsat" && s != "sat" {
-				rest = append(rest, i)
+				if esc == nil || esc(obs[i]) {
+					rest = append(rest, i)
+				}
 			}
 		}
 		idx = rest
